@@ -3,7 +3,9 @@
      VALID b | MIMPL ... | MREF ... | [MSCHED ... | PROTO accepts=b exited=b legal=b]
    MIMPL = impl_sim (canonical schedule), MREF = ref_sim, MSCHED = impl_sim_sched on
    the schedule projected from the observed trace, PROTO = the trace acceptor of
-   Protocol.v.  Dataset records: "<model> <label> NONE" or
+   Protocol.v.  With an ORACLE section the kernel family K of these three is the table of what
+   the Go kernels returned (node by node, run alone), and RIMPL = impl_sim with the Coq kernel
+   models of Registry.kernels (reported for information: kernel models are checked by C10-C16).  Dataset records: "<model> <label> NONE" or
    "<model> <label> <rank> <dims> : <hex values>" exactly like simgen's IMPL lines. *)
 let c07_hex f = Printf.sprintf "%016Lx" (Int64.bits_of_float (Float64.to_float f))
 let c07_unhex s = Float64.of_float (Int64.float_of_bits (Int64.of_string ("0x" ^ s)))
@@ -94,6 +96,52 @@ let c07_parse_case toks =
               sel_split = split } in
   ({ cc_T = t; cc_models = mds; cc_desc = desc; cc_links = ls; cc_sel = sel }, toks)
 
+(* ORACLE <k> then k times: OM <model> <N> <ni> <no> <ns> <T> followed by N*ni*T input values,
+   N*no*T output values, N*ns final-state values: what the Go kernels returned when every node was
+   run alone (simgen's oracle).  Used as the kernel family K of the extracted models, so that the
+   check of the simulation layer does not depend on the Coq models of the kernels. *)
+let c07_key name p s i =
+  let b = Buffer.create 256 in
+  Buffer.add_string b name;
+  Buffer.add_char b '|'; List.iter (fun v -> Buffer.add_string b (c07_hex v)) p;
+  Buffer.add_char b '|'; List.iter (fun v -> Buffer.add_string b (c07_hex v)) s;
+  List.iter (fun row -> Buffer.add_char b '|'; List.iter (fun v -> Buffer.add_string b (c07_hex v)) row) i;
+  Buffer.contents b
+
+let c07_parse_oracle (cs : c07_case) toks =
+  match toks with
+  | "ORACLE" :: k :: r ->
+    let tab = Hashtbl.create 64 in
+    let rec go k toks = if k = 0 then toks else
+        let toks = c07_expect "OM" toks in
+        let (name, toks) = (List.hd toks, List.tl toks) in
+        (match toks with
+         | n :: ni :: no :: ns :: t :: toks ->
+           let n = int_of_string n and ni = int_of_string ni and no = int_of_string no
+           and ns = int_of_string ns and t = int_of_string t in
+           let series cnt toks =
+             let rec rows j toks acc = if j = 0 then (List.rev acc, toks) else
+                 let (row, toks) = c07_take t toks in rows (j-1) toks (List.map c07_unhex row :: acc) in
+             rows cnt toks [] in
+           let rec per_node j toks acc f = if j = 0 then (List.rev acc, toks) else
+               let (x, toks) = f toks in per_node (j-1) toks (x :: acc) f in
+           let (ins, toks) = per_node n toks [] (series ni) in
+           let (outs, toks) = per_node n toks [] (series no) in
+           let (sts, toks) = per_node n toks [] (fun toks -> let (v, toks) = c07_take ns toks in (List.map c07_unhex v, toks)) in
+           (match List.find_opt (fun md -> md.md_name = name) cs.cc_models with
+            | Some md ->
+              let rec fill j ps ss ins outs sts = match ps, ss, ins, outs, sts with
+                | p :: ps, s0 :: ss, i :: ins, o :: outs, s1 :: sts ->
+                  Hashtbl.replace tab (c07_key name p s0 i) (o, s1); fill (j+1) ps ss ins outs sts
+                | _ -> () in
+              fill 0 md.md_params md.md_states ins outs sts
+            | None -> ());
+           go (k-1) toks
+         | _ -> failwith "OM") in
+    let rest = go (int_of_string k) r in
+    (Some tab, rest)
+  | _ -> (None, toks)
+
 let c07_parse_trace toks =
   match toks with
   | "TRACE" :: k :: r ->
@@ -109,6 +157,7 @@ let c07_parse_trace toks =
           let lab =
             if ev = "ran" then Some (LRun g)
             else if ev = "spawn" then Some (LSpawn g)
+            else if ev = "link" then Some (LLinkOne g)
             else if ev = "linked" then Some (LLinks g)
             else if ev = "written" then Some (LWrite g)
             else if ev = "main-recv" then Some (LMainRecv g)
@@ -162,18 +211,25 @@ let c07_sim (kernels : (string * (Float64.t arith -> Float64.t list -> Float64.t
     (arith : Float64.t arith) (toks : string list) : string =
   try
     let (cs, rest) = c07_parse_case toks in
+    let (otab, rest) = c07_parse_oracle cs rest in
     let trace = c07_parse_trace rest in
     let desc n = match List.assoc_opt n cs.cc_desc with Some d -> d | None -> (0, 0) in
     let cat = { cat_known = (fun n -> List.mem_assoc n kernels);
                 cat_nin = (fun n -> c07_nat (fst (desc n)));
                 cat_nout = (fun n -> c07_nat (snd (desc n))) } in
-    let k n p s i = match List.assoc_opt n kernels with Some f -> f arith p s i | None -> None in
+    let kreg n p s i = match List.assoc_opt n kernels with Some f -> f arith p s i | None -> None in
+    let k = match otab with
+      | Some tab -> (fun n p s i -> Hashtbl.find_opt tab (c07_key n p s i))
+      | None -> kreg in
     let eqb (a : string) (b : string) = (a = b) in
     let gr = { g_models = cs.cc_models; g_links = cs.cc_links } in
     let b = Buffer.create 4096 in
     Buffer.add_string b (Printf.sprintf "VALID %d" (if c07_valid cat eqb gr then 1 else 0));
     c07_dump_file b "MIMPL" cs (c07_impl_sim arith cat k eqb gr cs.cc_sel);
     c07_dump_file b "MREF" cs (c07_ref_sim arith cat k eqb gr cs.cc_sel);
+    (match otab with
+     | Some _ -> c07_dump_file b "RIMPL" cs (c07_impl_sim arith cat kreg eqb gr cs.cc_sel)
+     | None -> ());
     (match trace with
      | None -> ()
      | Some ls ->
